@@ -80,6 +80,13 @@ def gen(seed):
             subset_spikes = np.r_[subset_spikes, rng.choice(subset_spikes, size=int(rng.integers(1, 4)))]
             if rng.random() < 0.5:
                 subset_spikes = rng.permutation(subset_spikes)
+    if seed[2] % 13 == 6:
+        count = [-1, -3][seed[2] % 2]           # a count that is not positive means no limit
+    if seed[2] % 11 == 5:
+        # a grid far from the origin compared with the width of its chunks (samples late in a long session)
+        off = [3000000, 90000000][seed[2] % 2]
+        bounds = bounds + off
+        t = (t + t.dtype.type(off)).astype(t.dtype)
     return bounds, t, clusters, kept, count, req, subset_chunks, subset_spikes
 
 
